@@ -21,11 +21,11 @@ REQUIRED = ['calls', 'respelled_hits', 'different_binding_misses', 'ignored_arg_
             'store_value_calls', 'kwonly_default_spellings', 'own_cache_entry_counts', 'json_cache_classes', 'version_isolation_checks',
             'falsy_store_values', 'respelled_hits_with_reordered_mappings']
 ASSUMPTIONS = ['positional-only parameters, *args/**kwargs, custom key functions and methods sharing one external cache object are out of scope',
-               'argument values are drawn from a pool that is pairwise distinct under both Python equality and JSON text']
+               'argument values are drawn from a pool that is pairwise distinct as JSON text (it contains values that Python considers equal: 1 / 1.0 / True, 0 / 0.0 / False)']
 BUDGET = {'quick': 40, 'thorough': 900}
 
 POOL = [2, 3, -1, 'a', 'b', '', None, [2, 3], [3, 2], {'k': 2}, {'k': 3}, {'j': 2}, 'None', '2', 2.5, [], {}, 'é', [[2]], {'k': [2]},
-        {'k': 2, 'j': 3}, {'k': 3, 'j': 2}, [{'b': 1, 'a': [2]}, 2], {'x': {'q': 1, 'p': 2, 'r': None}, 'w': [3]}]
+        {'k': 2, 'j': 3}, {'k': 3, 'j': 2}, 1, 1.0, True, 0, 0.0, False, [1], [1.0], [True], [{'b': 1, 'a': [2]}, 2], {'x': {'q': 1, 'p': 2, 'r': None}, 'w': [3]}]
 
 
 def reorder(rng, v):
